@@ -57,13 +57,17 @@ if os.path.exists(rp):
         f = l.split('\t')
         res[f[0]] = f
 sec9 = ["## 9. Seeded changes: which check catches what", "",
- "Forty realistic code changes (two per property, `seeded/<id>A|B/`) were written by fresh sub-agents that were given only the property text and a",
+ "Sixty-four realistic code changes (`seeded/<id><A-D>/`: two per property in a first round, two more for twelve properties in a second round,",
+ "whose authors were also told the mechanisms of the first) were written by fresh sub-agents that were given only the property text and a",
  "scratch git worktree of `/repo` -- nothing from `/verif`. Each change compiles and keeps the repository's suite green; each comes with a demonstration",
  "test that passes on the unchanged tree and fails with the patch, which I re-ran myself in a scratch worktree before keeping the change",
  "(`bin/seedverify`; `meta.json.confirmed_by_me`). `bin/seedtest <dir> <tier> <ids>` applies a patch to `/repo` (3-way), runs the named checks and",
- "reverts; `bin/seedmatrix` does it for all forty and writes `seeded/RESULTS.tsv`. No patch was ever committed to `/repo`; all worktrees are removed.",
- "Patches rebased after my own fixes moved the surrounding code: C04A, C05B, C13B, C18A, C18B. Where a check missed a change at first it was",
- "strengthened (noted in the last column) -- never the other way round.", "",
+ "reverts; `bin/seedmatrix` does it for all of them and writes `seeded/RESULTS.tsv`. No patch was ever committed to `/repo`; all worktrees are removed.",
+ "Patches rebased after my own fixes moved the surrounding code: C04A, C05B, C13B, C18A, C18B, C18C.",
+ "",
+ "Round 1: all 37 live changes were caught by the quick tier as it stood. Round 2: 16 of 24 were caught as the checks stood; the 8 misses each",
+ "pointed at a dimension the specification had left out, and the specification (not just the driver) was extended until they were caught --",
+ "never the other way round. The notes column says what was added.", "",
  "| seed | change (one line) | caught by (quick tier) | rc | violations | notes |", "|---|---|---|---|---|---|"]
 NOTES = {
  'C14B': 'neutralised by fix `bd72493` (the flipped release guard is unreachable once the entry is fetched under the lock); demonstration no longer fails',
@@ -72,6 +76,18 @@ NOTES = {
  'C07A': 'server dies: reported as `wire-server-crashed`',
  'C11B': 'also caught by C05 (probe after an auto-handling request on the recycled context)',
  'C11A': 'needs the `SetPrior` action (an earlier SetStruct on the same holder)',
+ 'C01C': 'needs three registrations: caught by the small three-registration variant added to the quick tier (before: thorough tier only)',
+ 'C01D': 'missed at first; `Router.tla` got registrations for several methods at once (`GET+POST`)',
+ 'C04D': 'missed at first; the mount-open form now passes the prefix in its list form',
+ 'C05C': 'caught by the new probe for an empty catch-all (added while round 2 was running)',
+ 'C05D': 'missed at first (one application served all histories, so only the first SendFile configuration of the process mattered); every history now runs on a fresh application',
+ 'C07C': 'missed at first; `Wire.tla` got the request class `removedstandard` with a status that depends on the application variant',
+ 'C07D': 'missed at first; `Wire.tla` got the `Burst` action (32 connections x 6 rounds on first-use SendFile / Download)',
+ 'C15C': 'missed at first; `Session.tla` now lets a handler write to a session it destroyed',
+ 'C15D': 'missed at first; `Session.tla` got `ReGet` and a focused configuration that keeps one session alive across its absolute deadline',
+ 'C18C': 'missed at first (no IPv6 literal hosts in `CookieJar.tla`); adding them exposed a defect of my own earlier fix (`ccc461a`, `0c1bc9d`)',
+ 'C18D': 'missed at first; `ClientAssemble.tla` got the timeout component, observed on a slow endpoint together with the next request',
+ 'C11C': 'suite stays green only through test order (three bind tests fail in isolation with the patch)',
 }
 for d in sorted(os.listdir('/verif/seeded')):
     mp = '/verif/seeded/%s/meta.json' % d
